@@ -72,6 +72,17 @@ CHECKS = {
               "only as the default). Bit-exactness for dyadic maps is not separately argued."),
         note=TRUST + "; np.random.uniform(a,b)=a+(b-a)U; coordinate sources enumerated in the rule",
         ref="DESIGN.md section 4-C16"),
+    "C01": dict(
+        engine="E2 cfg + E4 access + E5 absint",
+        technique="must-assign dataflow along the protocol automaton + provenance tracing of returned points + E5 geometry (midpoint/containment/sample_uniform)",
+        text=("Static necessary conditions of totality and in-domain points: no protocol method of any of the 14 algorithms reads "
+              "an instance or cell attribute that is not definitely assigned along __init__ -> (pull -> receive_reward)* -> "
+              "get_last_point; every value returned by pull/get_last_point is by provenance a cell midpoint, an in-cell uniform "
+              "sample, an arm's stored centre or a learner's proposal (no arithmetic on the way); representatives are midpoints, "
+              "children lie inside parents, samples lie between their own bounds (E5). 'Never raises / never hangs' as a whole "
+              "quantifies over run-time values and is NOT claimed. One known finding: POO.algo_counter (rhomax < ~0.83)."),
+        note=TRUST + "; pull precedes receive_reward; T within budget; depth caps large enough; np.random.uniform(a,b) in [a,b]",
+        ref="DESIGN.md section 4-C01"),
 }
 
 NOT_YET = "checker under construction in this round (see DESIGN.md section 0 for the clause it will decide)"
